@@ -55,35 +55,85 @@ theorem prefixLen_le (c : Cache) (reg n : Nat) : c.prefixLen reg n ≤ n := by
     · have := ih (reg + 1); omega
     · omega
 
-/-- within the SPI contract no access leaves the shadow arrays -/
+theorem beNat_lt (l : List UInt8) : beNat l < 256 ^ l.length := by
+  induction l with
+  | nil => decide
+  | cons b bs ih =>
+    have hb := b.toNat_lt
+    have hp : 0 < 256 ^ bs.length := Nat.pow_pos (by decide)
+    show b.toNat * 256 ^ bs.length + beNat bs < 256 ^ (bs.length + 1)
+    rw [Nat.pow_succ]
+    calc b.toNat * 256 ^ bs.length + beNat bs < b.toNat * 256 ^ bs.length + 256 ^ bs.length := by omega
+      _ = (b.toNat + 1) * 256 ^ bs.length := by rw [Nat.add_mul, Nat.one_mul]
+      _ ≤ 256 * 256 ^ bs.length := Nat.mul_le_mul_right _ (by omega)
+      _ = 256 ^ bs.length * 256 := Nat.mul_comm _ _
+
+/-- the value of an `n`-byte register read is below `2^(8n)` -/
+theorem be32_lt (l : List UInt8) : (be32 l).toNat < 2 ^ (8 * l.length) := by
+  have h := beNat_lt l
+  have e : (256 : Nat) ^ l.length = 2 ^ (8 * l.length) := by
+    rw [show (256 : Nat) = 2 ^ 8 from rfl, ← Nat.pow_mul]
+  unfold be32
+  rw [UInt32.toNat_ofNat']
+  exact Nat.lt_of_le_of_lt (Nat.mod_le _ _) (e ▸ h)
+
+theorem busRead_val (w : World) (reg n : Nat) (v : UInt32) (w1 : World) (h : w.busRead reg n = (.ok v, w1)) :
+    v.toNat < 2 ^ (8 * n) := by
+  unfold World.busRead at h
+  generalize w.pre = pr at h
+  obtain ⟨w0, code⟩ := pr
+  cases code with
+  | some c => simp at h
+  | none =>
+    simp only at h
+    have hv : v = be32 (w0.chip.readN reg n).1 := by
+      have := congrArg Prod.fst h
+      simpa using this.symm
+    rw [hv]
+    have := be32_lt (w0.chip.readN reg n).1
+    rwa [readN_length] at this
+
+/-- within the SPI contract no access leaves the shadow arrays, and an `n`-byte read answers below `2^(8n)` -/
 theorem sread_sz {cached : Bool} {w : World} (hs : SzOk w) (reg n : Nat) (hp : ContractReq (.sread reg n)) :
-    ∃ r w', Shadow.sread cached w reg n = .ok r w' ∧ SzOk w' := by
+    ∃ r w', Shadow.sread cached w reg n = .ok r w' ∧ SzOk w' ∧ (∀ v, r = .ok v → v.toNat < 2 ^ (8 * n)) := by
   obtain ⟨h1, h2, h3, h4⟩ := hp
   have hbus : ∀ w0 : World, w0.cache = w.cache → SzOk w0 := fun w0 e => by unfold SzOk; rw [e]; exact hs
+  have hstep : ∃ r w', Shadow.busStep w reg n = .ok r w' ∧ SzOk w' ∧ (∀ v, r = .ok v → v.toNat < 2 ^ (8 * n)) := by
+    refine ⟨(w.busRead reg n).1, (w.busRead reg n).2, rfl, hbus _ (busRead_cache w reg n), ?_⟩
+    intro v hv
+    exact busRead_val w reg n v (w.busRead reg n).2 (Prod.ext hv rfl)
   unfold Shadow.sread
   split
-  · unfold Shadow.busStep
-    exact ⟨_, _, rfl, hbus _ (busRead_cache w reg n)⟩
+  · exact hstep
   · rw [if_neg (by rw [hs]; omega)]
     split
-    · unfold Shadow.busStep
-      exact ⟨_, _, rfl, hbus _ (busRead_cache w reg n)⟩
+    · exact hstep
     · have hpe := probeEnd_le _ _ (prefixLen_le w.cache reg n)
       rw [if_neg (by rw [hs]; omega)]
       split
-      · exact ⟨_, _, rfl, hs⟩
+      · refine ⟨_, _, rfl, hs, ?_⟩
+        intro v hv
+        have e : v = be32 (w.cache.vals.rds reg n) := by cases hv; rfl
+        rw [e]
+        have := be32_lt (w.cache.vals.rds reg n)
+        rwa [length_rds] at this
       · unfold Shadow.sreadMiss
         have hc := busRead_cache w reg n
-        generalize w.busRead reg n = br at hc
+        have hval := busRead_val w reg n
+        generalize w.busRead reg n = br at hc hval
         obtain ⟨res, w1⟩ := br
         cases res with
-        | error c => exact ⟨_, _, rfl, hbus _ hc⟩
+        | error c => exact ⟨_, _, rfl, hbus _ hc, fun v hv => by cases hv⟩
         | ok v =>
           simp only
           unfold Shadow.sreadFill
           have hsz1 : w1.cache.size = 0x71 := by rw [show w1.cache = w.cache from hc]; exact hs
           rw [if_neg (by rw [hsz1]; omega)]
-          exact ⟨_, _, rfl, by unfold SzOk; show (w1.cache.store _ _).size = _; rw [store_size]; exact hsz1⟩
+          refine ⟨_, _, rfl, by unfold SzOk; show (w1.cache.store _ _).size = _; rw [store_size]; exact hsz1, ?_⟩
+          intro v' hv'
+          have e : v' = v := by cases hv'; rfl
+          rw [e]
+          exact hval v w1 rfl
 theorem rread_sz {cached : Bool} {w : World} (hs : SzOk w) (reg : Nat) (hp : ContractReq (.rread reg)) :
     ∃ r w', Shadow.rread cached w reg = .ok r w' ∧ SzOk w' := by
   have hreg : reg ≤ 0x70 := hp
